@@ -1,220 +1,324 @@
----- MODULE DistChanImpl ----
-EXTENDS Naturals, Sequences, FiniteSets, TLC
-CONSTANTS NCH, SendersOf, MSGS, RecvMayDrop
-\* SendersOf: function chan -> number of senders ; each sender sends MSGS messages then drops
-Chans == 1..NCH
-Senders == { <<c, i>> : c \in Chans, i \in 1..2 } \cap { s \in (Chans \X (1..2)) : s[2] <= SendersOf[s[1]] }
-Recvs == { <<c, 0>> : c \in Chans }
-Procs == Senders \cup Recvs
-ChanOf(p) == p[1]
-NoProc == <<0,0>>
+---------------------------- MODULE DistChanImpl ----------------------------
+(***************************************************************************)
+(* Implementation-grain model of datafusion/physical-plan/src/repartition/ *)
+(* distributor_channels.rs (property C15).  One action per shared-memory   *)
+(* access region; every action label is the hook site `dc_<label>` placed  *)
+(* immediately before that region in the Rust code (cfg datafusion_verif), *)
+(* so a TLC behaviour is a schedule the controlled scheduler can drive the *)
+(* real code through (B1) and a recorded execution is a sequence of these  *)
+(* labels (B2).                                                            *)
+(*                                                                         *)
+(* Shared state: per channel, the channel mutex protects <<queue, alive,   *)
+(* rwSome, rwReg>>; `held[c]` says the mutex is taken (regions that access *)
+(* the gate while the channel mutex is held are separate actions, so the   *)
+(* mutex is held across actions).  The gate has the atomic `empty` and the *)
+(* mutex-protected <<swSome, swList>>; every gate-mutex region is a single *)
+(* action, so that mutex is never held across actions.  `nSend[c]` is the  *)
+(* atomic sender count.                                                    *)
+(* Steps that touch only state protected by the held channel mutex (push,  *)
+(* take_recv_wakers, unlock) are merged into the preceding action: they    *)
+(* commute with every action of the other processes.                       *)
+(* Wakers: a parked process (pc = "S_park"/"R_park") is disabled; `wake`   *)
+(* moves it to "S_res"/"R_res" (the executor polls the future again).      *)
+(***************************************************************************)
+EXTENDS Integers, Sequences, FiniteSets, TLC
 
-VARIABLES pc, queue, recvAlive, rwSome, rwReg, nSenders, empty, swSome, swList,
-          chLock, parked, loc, sentCnt, pushed, recvd, gotNone, sendErr
-vars == <<pc, queue, recvAlive, rwSome, rwReg, nSenders, empty, swSome, swList,
-          chLock, parked, loc, sentCnt, pushed, recvd, gotNone, sendErr>>
+CONSTANTS NCH,          \* number of channels of the gate (channels(NCH))
+          S1, S2, S3,   \* number of sender handles (clones) on channel 1, 2, 3
+          MSGS,         \* max sends per sender handle
+          RDROP,        \* a receiver may be dropped before it has seen end-of-stream
+          SDROP         \* a sender handle may be dropped before it has sent MSGS values
+
+SendersOf == <<S1, S2, S3>>
+Chans   == 1..NCH
+Senders == { p \in Chans \X (1..3) : p[2] <= SendersOf[p[1]] }
+Recvs   == { <<c, 0>> : c \in Chans }
+Procs   == Senders \cup Recvs
+Ch(p)   == p[1]
+Rx(c)   == <<c, 0>>
+
+VARIABLES
+  pc,                               \* control state of every process
+  queue, alive, rwSome, rwReg, held, \* channel state: data (None = ~alive), recv_wakers Some?, receiver registered?, mutex taken
+  nSend,                            \* atomic n_senders
+  empty, swSome, swList,            \* gate: empty_channels, send_wakers is Some?, registered senders
+  wk,                               \* local: wakers taken, to be woken outside the lock
+  started, sentCnt, sendErr,        \* ghost: sends started / returned Ok / a send returned Err
+  pushed, recvd, rcnt, gotNone,     \* ghost: values pushed per channel (commit order), dequeued, returned by recv, recv returned None
+  last                              \* <<kind, chan, index, label>> of the last step (hidden by VIEW)
+
+cvars == <<queue, alive, rwSome, rwReg, held>>
+gvars == <<empty, swSome, swList>>
+hvars == <<started, sentCnt, sendErr, pushed, recvd, rcnt, gotNone>>
+vars  == <<pc, cvars, nSend, gvars, wk, hvars, last>>
+view  == <<pc, cvars, nSend, gvars, wk, hvars>>
 
 Init ==
-  /\ pc = [p \in Procs |-> IF p \in Senders THEN "S_idle" ELSE "R_idle"]
-  /\ queue = [c \in Chans |-> <<>>]
-  /\ recvAlive = [c \in Chans |-> TRUE]
-  /\ rwSome = [c \in Chans |-> TRUE]
-  /\ rwReg = [c \in Chans |-> FALSE]
-  /\ nSenders = [c \in Chans |-> SendersOf[c]]
-  /\ empty = NCH
-  /\ swSome = FALSE /\ swList = {}
-  /\ chLock = [c \in Chans |-> NoProc]
-  /\ parked = [p \in Procs |-> FALSE]
-  /\ loc = [p \in Procs |-> [e |-> 0, we |-> FALSE, old |-> 0, wake |-> {}]]
-  /\ sentCnt = [p \in Senders |-> 0]
-  /\ pushed = [c \in Chans |-> <<>>]
-  /\ recvd = [c \in Chans |-> <<>>]
-  /\ gotNone = [c \in Chans |-> FALSE]
+  /\ pc = [p \in Procs |-> IF p \in Senders THEN "S0" ELSE "R0"]
+  /\ queue = [c \in Chans |-> <<>>] /\ alive = [c \in Chans |-> TRUE]
+  /\ rwSome = [c \in Chans |-> TRUE] /\ rwReg = [c \in Chans |-> FALSE]
+  /\ held = [c \in Chans |-> FALSE]
+  /\ nSend = [c \in Chans |-> SendersOf[c]]
+  /\ empty = NCH /\ swSome = FALSE /\ swList = {}
+  /\ wk = [p \in Procs |-> {}]
+  /\ started = [p \in Senders |-> 0] /\ sentCnt = [p \in Senders |-> 0]
   /\ sendErr = [p \in Senders |-> FALSE]
+  /\ pushed = [c \in Chans |-> <<>>] /\ recvd = [c \in Chans |-> <<>>]
+  /\ rcnt = [c \in Chans |-> 0] /\ gotNone = [c \in Chans |-> FALSE]
+  /\ last = <<"init", 0, 0, "init">>
 
+Lbl(p, l) == last' = <<IF p[2] = 0 THEN "r" ELSE "s", p[1], p[2], l>>
 Goto(p, l) == pc' = [pc EXCEPT ![p] = l]
-SetLoc(p, f, v) == loc' = [loc EXCEPT ![p][f] = v]
-Lock(p) == chLock[ChanOf(p)] = NoProc /\ chLock' = [chLock EXCEPT ![ChanOf(p)] = p]
-Unlock(p) == chLock' = [chLock EXCEPT ![ChanOf(p)] = NoProc]
-Wake(S) == parked' = [q \in Procs |-> IF q \in S THEN FALSE ELSE parked[q]]
+\* wake(): the parked owner of each waker becomes runnable again; this process moves to `l`
+WakeGoto(p, l) ==
+  pc' = [q \in Procs |-> IF q = p THEN l
+                         ELSE IF q \in wk[p] /\ pc[q] = "S_park" THEN "S_res"
+                         ELSE IF q \in wk[p] /\ pc[q] = "R_park" THEN "R_res" ELSE pc[q]]
+Unlock(c) == held' = [held EXCEPT ![c] = FALSE]
+Msg(p) == <<p[2], sentCnt[p] + 1>>
 
-\* ---------- Sender: send ----------
-S_start(p) == LET c == ChanOf(p) IN
-  /\ pc[p] = "S_idle" /\ ~parked[p]
-  /\ IF sentCnt[p] < MSGS /\ ~sendErr[p]
-       THEN Lock(p) /\ Goto(p, "S2") 
-       ELSE Goto(p, "D1") /\ UNCHANGED chLock
-  /\ UNCHANGED <<queue, recvAlive, rwSome, rwReg, nSenders, empty, swSome, swList, parked, loc, sentCnt, pushed, recvd, gotNone, sendErr>>
+(* ------------------------------ SendFuture::poll ------------------------------ *)
+\* dc_s_lock: channel.state.lock(); receiver gone -> Ready(Err)
+S_lock(p) == LET c == Ch(p) IN
+  /\ pc[p] \in {"S0", "S1"} /\ ~held[c]
+  /\ pc[p] = "S0" => (started[p] < MSGS /\ ~sendErr[p])
+  /\ started' = IF pc[p] = "S0" THEN [started EXCEPT ![p] = @ + 1] ELSE started
+  /\ IF ~alive[c]
+       THEN /\ sendErr' = [sendErr EXCEPT ![p] = TRUE] /\ Goto(p, "S0") /\ UNCHANGED held
+       ELSE /\ held' = [held EXCEPT ![c] = TRUE] /\ Goto(p, "S3") /\ UNCHANGED sendErr
+  /\ Lbl(p, "s_lock")
+  /\ UNCHANGED <<queue, alive, rwSome, rwReg, nSend, gvars, wk, sentCnt, pushed, recvd, rcnt, gotNone>>
 
-S2(p) == LET c == ChanOf(p) IN
-  /\ pc[p] = "S2"
-  /\ IF ~recvAlive[c]
-       THEN /\ sendErr' = [sendErr EXCEPT ![p] = TRUE] /\ Unlock(p) /\ Goto(p, "S_idle") /\ UNCHANGED loc
-       ELSE /\ SetLoc(p, "e", empty) /\ Goto(p, "S4") /\ UNCHANGED <<sendErr, chLock>>
-  /\ UNCHANGED <<queue, recvAlive, rwSome, rwReg, nSenders, empty, swSome, swList, parked, sentCnt, pushed, recvd, gotNone>>
+\* data.push_back(element) (+ everything up to the next shared access)
+Push(p) == LET c == Ch(p) IN
+  /\ queue' = [queue EXCEPT ![c] = Append(@, Msg(p))]
+  /\ pushed' = [pushed EXCEPT ![c] = Append(@, Msg(p))]
+  /\ IF queue[c] = <<>>
+       THEN /\ Goto(p, "S6") /\ UNCHANGED <<held, sentCnt>>       \* was_empty: decr_empty_channels next
+       ELSE /\ Unlock(c) /\ Goto(p, "S0")                          \* Ready(Ok(()))
+            /\ sentCnt' = [sentCnt EXCEPT ![p] = @ + 1]
 
-S4(p) == LET c == ChanOf(p) IN
+\* dc_s_load: gate.empty_channels.load()
+S_load(p) ==
+  /\ pc[p] = "S3"
+  /\ IF empty = 0 THEN Goto(p, "S4") /\ UNCHANGED <<queue, pushed, held, sentCnt>>
+                  ELSE Push(p)
+  /\ Lbl(p, "s_load")
+  /\ UNCHANGED <<alive, rwSome, rwReg, nSend, gvars, wk, started, sendErr, recvd, rcnt, gotNone>>
+
+\* dc_s_gate: gate.send_wakers.lock(); Some(list) -> register, Pending (channel mutex released)
+S_gate(p) == LET c == Ch(p) IN
   /\ pc[p] = "S4"
-  /\ IF loc[p].e = 0 /\ swSome
-       THEN /\ swList' = swList \cup {p} /\ parked' = [parked EXCEPT ![p] = TRUE]
-            /\ Unlock(p) /\ Goto(p, "S_idle")
-            /\ UNCHANGED <<queue, pushed, loc>>
-       ELSE /\ SetLoc(p, "we", queue[c] = <<>>)
-            /\ queue' = [queue EXCEPT ![c] = Append(@, <<p, sentCnt[p] + 1>>)]
-            /\ pushed' = [pushed EXCEPT ![c] = Append(@, <<p, sentCnt[p] + 1>>)]
-            /\ Goto(p, "S6") /\ UNCHANGED <<swList, parked, chLock>>
-  /\ UNCHANGED <<recvAlive, rwSome, rwReg, nSenders, empty, swSome, sentCnt, recvd, gotNone, sendErr>>
+  /\ IF swSome
+       THEN /\ swList' = swList \cup {p} /\ Unlock(c) /\ Goto(p, "S_park")
+            /\ UNCHANGED <<queue, pushed, sentCnt>>
+       ELSE /\ Push(p) /\ UNCHANGED swList
+  /\ Lbl(p, "s_gate")
+  /\ UNCHANGED <<alive, rwSome, rwReg, nSend, empty, swSome, wk, started, sendErr, recvd, rcnt, gotNone>>
 
-\* generic decrement sub-steps: DecrA (fetch_sub), DecrB (gate region if old = 1)
-S6(p) ==
-  /\ pc[p] = "S6"
-  /\ IF loc[p].we
-       THEN /\ loc' = [loc EXCEPT ![p].old = empty] /\ empty' = empty - 1 /\ Goto(p, "S7")
-       ELSE /\ Goto(p, "S8") /\ UNCHANGED <<loc, empty>>
-  /\ UNCHANGED <<queue, recvAlive, rwSome, rwReg, nSenders, swSome, swList, chLock, parked, sentCnt, pushed, recvd, gotNone, sendErr>>
+(* ------------------------------ Gate::decr_empty_channels ------------------------------ *)
+\* continuation after decr_empty_channels returned (still inside the channel mutex)
+AfterDecr(p) == LET c == Ch(p) IN
+  CASE pc[p] \in {"S6", "S7"} ->       \* take_recv_wakers(); unlock; wake outside the lock
+         /\ wk' = [wk EXCEPT ![p] = IF rwReg[c] THEN {Rx(c)} ELSE {}]
+         /\ rwReg' = [rwReg EXCEPT ![c] = FALSE] /\ Unlock(c)
+         /\ IF rwReg[c] THEN Goto(p, "S9") /\ UNCHANGED sentCnt
+                        ELSE Goto(p, "S0") /\ sentCnt' = [sentCnt EXCEPT ![p] = @ + 1]
+         /\ UNCHANGED <<rwSome>>
+    [] pc[p] \in {"D6", "D7"} ->       \* recv_wakers.take(); unlock
+         /\ wk' = [wk EXCEPT ![p] = IF rwReg[c] THEN {Rx(c)} ELSE {}]
+         /\ rwSome' = [rwSome EXCEPT ![c] = FALSE] /\ rwReg' = [rwReg EXCEPT ![c] = FALSE]
+         /\ Unlock(c) /\ Goto(p, IF rwReg[c] THEN "D9" ELSE "Done")
+         /\ UNCHANGED sentCnt
+    [] pc[p] \in {"X6", "X7"} ->       \* wake_channel_senders next, mutex still held
+         /\ Goto(p, "X4") /\ UNCHANGED <<wk, rwSome, rwReg, held, sentCnt>>
 
-GateClose == IF empty = 0 /\ ~swSome THEN swSome' = TRUE /\ swList' = {} ELSE UNCHANGED <<swSome, swList>>
+\* dc_decr: empty_channels.fetch_sub(1)
+Decr(p) ==
+  /\ pc[p] \in {"S6", "D6", "X6"}
+  /\ empty' = empty - 1
+  /\ IF empty = 1
+       THEN /\ Goto(p, CASE pc[p] = "S6" -> "S7" [] pc[p] = "D6" -> "D7" [] OTHER -> "X7")
+            /\ UNCHANGED <<wk, rwSome, rwReg, held, sentCnt>>
+       ELSE AfterDecr(p)
+  /\ Lbl(p, "decr")
+  /\ UNCHANGED <<queue, alive, nSend, swSome, swList, started, sendErr, pushed, recvd, rcnt, gotNone>>
 
-S7(p) ==
-  /\ pc[p] = "S7"
-  /\ IF loc[p].old = 1 THEN GateClose ELSE UNCHANGED <<swSome, swList>>
-  /\ Goto(p, "S8")
-  /\ UNCHANGED <<queue, recvAlive, rwSome, rwReg, nSenders, empty, chLock, parked, loc, sentCnt, pushed, recvd, gotNone, sendErr>>
+\* dc_decr_gate: send_wakers.lock(); if empty_channels = 0 and None then Some([])
+DecrGate(p) ==
+  /\ pc[p] \in {"S7", "D7", "X7"}
+  /\ IF empty = 0 /\ ~swSome THEN swSome' = TRUE /\ swList' = {} ELSE UNCHANGED <<swSome, swList>>
+  /\ AfterDecr(p)
+  /\ Lbl(p, "decr_gate")
+  /\ UNCHANGED <<queue, alive, nSend, empty, started, sendErr, pushed, recvd, rcnt, gotNone>>
 
-S8(p) == LET c == ChanOf(p) IN
-  /\ pc[p] = "S8"
-  /\ SetLoc(p, "wake", IF loc[p].we /\ rwReg[c] THEN {<<c,0>>} ELSE {})
-  /\ rwReg' = [rwReg EXCEPT ![c] = IF loc[p].we THEN FALSE ELSE @]
-  /\ Unlock(p) /\ Goto(p, "S9")
-  /\ UNCHANGED <<queue, recvAlive, rwSome, nSenders, empty, swSome, swList, parked, sentCnt, pushed, recvd, gotNone, sendErr>>
-
-S9(p) ==
+\* dc_s_wake: wake the receiver outside the lock; Ready(Ok(()))
+S_wake(p) ==
   /\ pc[p] = "S9"
-  /\ Wake(loc[p].wake)
+  /\ WakeGoto(p, "S0") /\ wk' = [wk EXCEPT ![p] = {}]
   /\ sentCnt' = [sentCnt EXCEPT ![p] = @ + 1]
-  /\ Goto(p, "S_idle")
-  /\ UNCHANGED <<queue, recvAlive, rwSome, rwReg, nSenders, empty, swSome, swList, chLock, loc, pushed, recvd, gotNone, sendErr>>
+  /\ Lbl(p, "s_wake")
+  /\ UNCHANGED <<cvars, nSend, gvars, started, sendErr, pushed, recvd, rcnt, gotNone>>
 
-\* ---------- Sender: drop ----------
-D1(p) == LET c == ChanOf(p) IN
-  /\ pc[p] = "D1"
-  /\ nSenders' = [nSenders EXCEPT ![c] = @ - 1]
-  /\ IF nSenders[c] > 1 THEN Goto(p, "Done") ELSE Goto(p, "D2")
-  /\ UNCHANGED <<queue, recvAlive, rwSome, rwReg, empty, swSome, swList, chLock, parked, loc, sentCnt, pushed, recvd, gotNone, sendErr>>
+\* the executor polls a woken future again (no shared access up to the first hook)
+Resume(p) ==
+  /\ pc[p] \in {"S_res", "R_res"}
+  /\ Goto(p, IF pc[p] = "S_res" THEN "S1" ELSE "R1")
+  /\ Lbl(p, "resume")
+  /\ UNCHANGED <<cvars, nSend, gvars, wk, hvars>>
 
-D2(p) ==
-  /\ pc[p] = "D2" /\ Lock(p) /\ Goto(p, "D3")
-  /\ UNCHANGED <<queue, recvAlive, rwSome, rwReg, nSenders, empty, swSome, swList, parked, loc, sentCnt, pushed, recvd, gotNone, sendErr>>
+(* ------------------------------ Drop for DistributionSender ------------------------------ *)
+\* dc_d_nsend: n_senders.fetch_sub(1); not the last handle -> return
+D_nsend(p) == LET c == Ch(p) IN
+  /\ pc[p] = "S0"
+  /\ SDROP \/ started[p] = MSGS \/ sendErr[p]
+  /\ nSend' = [nSend EXCEPT ![c] = @ - 1]
+  /\ Goto(p, IF nSend[c] > 1 THEN "Done" ELSE "D2")
+  /\ Lbl(p, "d_nsend")
+  /\ UNCHANGED <<cvars, gvars, wk, hvars>>
 
-D3(p) == LET c == ChanOf(p) IN
-  /\ pc[p] = "D3"
-  /\ IF recvAlive[c] /\ queue[c] = <<>>
-       THEN /\ loc' = [loc EXCEPT ![p].old = empty] /\ empty' = empty - 1 /\ Goto(p, "D3b")
-       ELSE /\ Goto(p, "D4") /\ UNCHANGED <<loc, empty>>
-  /\ UNCHANGED <<queue, recvAlive, rwSome, rwReg, nSenders, swSome, swList, chLock, parked, sentCnt, pushed, recvd, gotNone, sendErr>>
+\* dc_d_lock: channel.state.lock(); open and empty -> decr_empty_channels; then recv_wakers.take()
+D_lock(p) == LET c == Ch(p) IN
+  /\ pc[p] = "D2" /\ ~held[c]
+  /\ rwSome[c]                      \* expect("not closed yet")
+  /\ IF alive[c] /\ queue[c] = <<>>
+       THEN /\ held' = [held EXCEPT ![c] = TRUE] /\ Goto(p, "D6") /\ UNCHANGED <<wk, rwSome, rwReg>>
+       ELSE /\ wk' = [wk EXCEPT ![p] = IF rwReg[c] THEN {Rx(c)} ELSE {}]
+            /\ rwSome' = [rwSome EXCEPT ![c] = FALSE] /\ rwReg' = [rwReg EXCEPT ![c] = FALSE]
+            /\ Goto(p, IF rwReg[c] THEN "D9" ELSE "Done") /\ UNCHANGED held
+  /\ Lbl(p, "d_lock")
+  /\ UNCHANGED <<queue, alive, nSend, gvars, hvars>>
 
-D3b(p) ==
-  /\ pc[p] = "D3b"
-  /\ IF loc[p].old = 1 THEN GateClose ELSE UNCHANGED <<swSome, swList>>
-  /\ Goto(p, "D4")
-  /\ UNCHANGED <<queue, recvAlive, rwSome, rwReg, nSenders, empty, chLock, parked, loc, sentCnt, pushed, recvd, gotNone, sendErr>>
+\* dc_d_wake
+D_wake(p) ==
+  /\ pc[p] = "D9"
+  /\ WakeGoto(p, "Done") /\ wk' = [wk EXCEPT ![p] = {}]
+  /\ Lbl(p, "d_wake")
+  /\ UNCHANGED <<cvars, nSend, gvars, hvars>>
 
-D4(p) == LET c == ChanOf(p) IN
-  /\ pc[p] = "D4"
-  /\ rwSome[c]   \* expect("not closed yet")
-  /\ SetLoc(p, "wake", IF rwReg[c] THEN {<<c,0>>} ELSE {})
-  /\ rwSome' = [rwSome EXCEPT ![c] = FALSE] /\ rwReg' = [rwReg EXCEPT ![c] = FALSE]
-  /\ Unlock(p) /\ Goto(p, "D5")
-  /\ UNCHANGED <<queue, recvAlive, nSenders, empty, swSome, swList, parked, sentCnt, pushed, recvd, gotNone, sendErr>>
-
-D5(p) ==
-  /\ pc[p] = "D5" /\ Wake(loc[p].wake) /\ Goto(p, "Done")
-  /\ UNCHANGED <<queue, recvAlive, rwSome, rwReg, nSenders, empty, swSome, swList, chLock, loc, sentCnt, pushed, recvd, gotNone, sendErr>>
-
-\* ---------- Receiver: recv ----------
-R_start(p) == LET c == ChanOf(p) IN
-  /\ pc[p] = "R_idle" /\ ~parked[p]
-  /\ \/ /\ ~gotNone[c] /\ Lock(p) /\ Goto(p, "R2")
-     \/ /\ (RecvMayDrop \/ gotNone[c]) /\ Lock(p) /\ Goto(p, "X2")
-  /\ UNCHANGED <<queue, recvAlive, rwSome, rwReg, nSenders, empty, swSome, swList, parked, loc, sentCnt, pushed, recvd, gotNone, sendErr>>
-
-R2(p) == LET c == ChanOf(p) IN
-  /\ pc[p] = "R2"
+(* ------------------------------ RecvFuture::poll ------------------------------ *)
+\* dc_r_lock: channel.state.lock(); pop_front | register waker, Pending | Ready(None)
+R_lock(p) == LET c == Ch(p) IN
+  /\ pc[p] \in {"R0", "R1"} /\ ~held[c]
+  /\ pc[p] = "R0" => ~gotNone[c]
   /\ IF queue[c] # <<>>
        THEN /\ recvd' = [recvd EXCEPT ![c] = Append(@, Head(queue[c]))]
             /\ queue' = [queue EXCEPT ![c] = Tail(@)]
             /\ IF Len(queue[c]) = 1 /\ rwSome[c]
-                 THEN /\ loc' = [loc EXCEPT ![p].old = empty] /\ empty' = empty + 1 /\ Goto(p, "R4") /\ UNCHANGED chLock
-                 ELSE /\ Unlock(p) /\ Goto(p, "R_idle") /\ UNCHANGED <<loc, empty>>
-            /\ UNCHANGED <<rwReg, parked, gotNone>>
+                 THEN /\ held' = [held EXCEPT ![c] = TRUE] /\ Goto(p, "R3") /\ UNCHANGED rcnt
+                 ELSE /\ Goto(p, "R0") /\ rcnt' = [rcnt EXCEPT ![c] = @ + 1] /\ UNCHANGED held
+            /\ UNCHANGED <<rwReg, gotNone>>
        ELSE /\ IF rwSome[c]
-                 THEN /\ rwReg' = [rwReg EXCEPT ![c] = TRUE] /\ parked' = [parked EXCEPT ![p] = TRUE] /\ UNCHANGED gotNone
-                 ELSE /\ gotNone' = [gotNone EXCEPT ![c] = TRUE] /\ UNCHANGED <<rwReg, parked>>
-            /\ Unlock(p) /\ Goto(p, "R_idle")
-            /\ UNCHANGED <<recvd, queue, loc, empty>>
-  /\ UNCHANGED <<recvAlive, rwSome, nSenders, swSome, swList, sentCnt, pushed, sendErr>>
+                 THEN /\ rwReg' = [rwReg EXCEPT ![c] = TRUE] /\ Goto(p, "R_park") /\ UNCHANGED gotNone
+                 ELSE /\ gotNone' = [gotNone EXCEPT ![c] = TRUE] /\ Goto(p, "R0") /\ UNCHANGED rwReg
+            /\ UNCHANGED <<recvd, queue, held, rcnt>>
+  /\ Lbl(p, "r_lock")
+  /\ UNCHANGED <<alive, rwSome, nSend, gvars, wk, started, sentCnt, sendErr, pushed>>
 
-R4(p) ==
+\* dc_r_incr: empty_channels.fetch_add(1)
+R_incr(p) == LET c == Ch(p) IN
+  /\ pc[p] = "R3"
+  /\ empty' = empty + 1
+  /\ IF empty = 0
+       THEN Goto(p, "R4") /\ UNCHANGED <<held, rcnt>>
+       ELSE Unlock(c) /\ Goto(p, "R0") /\ rcnt' = [rcnt EXCEPT ![c] = @ + 1]
+  /\ Lbl(p, "r_incr")
+  /\ UNCHANGED <<queue, alive, rwSome, rwReg, nSend, swSome, swList, wk, started, sentCnt, sendErr, pushed, recvd, gotNone>>
+
+\* dc_r_gate: send_wakers.lock(); if empty_channels > 0 then take the list (gate opens)
+R_gate(p) == LET c == Ch(p)
+                 w == IF empty > 0 /\ swSome THEN swList ELSE {} IN
   /\ pc[p] = "R4"
-  /\ IF loc[p].old = 0
-       THEN IF empty > 0
-              THEN /\ SetLoc(p, "wake", IF swSome THEN swList ELSE {}) /\ swSome' = FALSE /\ swList' = {}
-              ELSE /\ SetLoc(p, "wake", {}) /\ UNCHANGED <<swSome, swList>>
-       ELSE /\ SetLoc(p, "wake", {}) /\ UNCHANGED <<swSome, swList>>
-  /\ Unlock(p) /\ Goto(p, "R6")
-  /\ UNCHANGED <<queue, recvAlive, rwSome, rwReg, nSenders, empty, parked, sentCnt, pushed, recvd, gotNone, sendErr>>
+  /\ IF empty > 0 THEN swSome' = FALSE /\ swList' = {} ELSE UNCHANGED <<swSome, swList>>
+  /\ wk' = [wk EXCEPT ![p] = w]
+  /\ Unlock(c)
+  /\ IF w # {} THEN Goto(p, "R6") /\ UNCHANGED rcnt
+               ELSE Goto(p, "R0") /\ rcnt' = [rcnt EXCEPT ![c] = @ + 1]
+  /\ Lbl(p, "r_gate")
+  /\ UNCHANGED <<queue, alive, rwSome, rwReg, nSend, empty, started, sentCnt, sendErr, pushed, recvd, gotNone>>
 
-R6(p) ==
-  /\ pc[p] = "R6" /\ Wake(loc[p].wake) /\ Goto(p, "R_idle")
-  /\ UNCHANGED <<queue, recvAlive, rwSome, rwReg, nSenders, empty, swSome, swList, chLock, loc, sentCnt, pushed, recvd, gotNone, sendErr>>
+\* dc_r_wake: wake the gate's senders outside the lock; Ready(Some(v))
+R_wake(p) ==
+  /\ pc[p] = "R6"
+  /\ WakeGoto(p, "R0") /\ wk' = [wk EXCEPT ![p] = {}]
+  /\ rcnt' = [rcnt EXCEPT ![Ch(p)] = @ + 1]
+  /\ Lbl(p, "r_wake")
+  /\ UNCHANGED <<cvars, nSend, gvars, started, sentCnt, sendErr, pushed, recvd, gotNone>>
 
-\* ---------- Receiver: drop ----------
-X2(p) == LET c == ChanOf(p) IN
-  /\ pc[p] = "X2"
-  /\ recvAlive' = [recvAlive EXCEPT ![c] = FALSE]
-  /\ queue' = [queue EXCEPT ![c] = <<>>]
-  /\ IF queue[c] = <<>> /\ nSenders[c] > 0
-       THEN /\ loc' = [loc EXCEPT ![p].old = empty] /\ empty' = empty - 1 /\ Goto(p, "X3")
-       ELSE /\ Goto(p, "X4") /\ UNCHANGED <<loc, empty>>
-  /\ UNCHANGED <<rwSome, rwReg, nSenders, swSome, swList, chLock, parked, sentCnt, pushed, recvd, gotNone, sendErr>>
+(* ------------------------------ Drop for DistributionReceiver ------------------------------ *)
+\* dc_x_lock: channel.state.lock(); data.take(); empty and senders left -> decr_empty_channels
+X_lock(p) == LET c == Ch(p) IN
+  /\ pc[p] = "R0" /\ ~held[c]
+  /\ RDROP \/ gotNone[c]
+  /\ held' = [held EXCEPT ![c] = TRUE]
+  /\ alive' = [alive EXCEPT ![c] = FALSE] /\ queue' = [queue EXCEPT ![c] = <<>>]
+  /\ Goto(p, IF queue[c] = <<>> /\ nSend[c] > 0 THEN "X6" ELSE "X4")
+  /\ Lbl(p, "x_lock")
+  /\ UNCHANGED <<rwSome, rwReg, nSend, gvars, wk, hvars>>
 
-X3(p) ==
-  /\ pc[p] = "X3"
-  /\ IF loc[p].old = 1 THEN GateClose ELSE UNCHANGED <<swSome, swList>>
-  /\ Goto(p, "X4")
-  /\ UNCHANGED <<queue, recvAlive, rwSome, rwReg, nSenders, empty, chLock, parked, loc, sentCnt, pushed, recvd, gotNone, sendErr>>
-
-X4(p) == LET c == ChanOf(p) IN
+\* dc_x_wcs: wake_channel_senders: send_wakers.lock(); drain this channel's senders
+X_wcs(p) == LET c == Ch(p)
+                w == IF swSome THEN {q \in swList : Ch(q) = c} ELSE {} IN
   /\ pc[p] = "X4"
-  /\ IF swSome
-       THEN /\ SetLoc(p, "wake", {w \in swList : ChanOf(w) = c}) /\ swList' = {w \in swList : ChanOf(w) # c}
-       ELSE /\ SetLoc(p, "wake", {}) /\ UNCHANGED swList
-  /\ Goto(p, "X5")
-  /\ UNCHANGED <<queue, recvAlive, rwSome, rwReg, nSenders, empty, swSome, chLock, parked, sentCnt, pushed, recvd, gotNone, sendErr>>
+  /\ swList' = swList \ w
+  /\ wk' = [wk EXCEPT ![p] = w]
+  /\ IF w # {} THEN Goto(p, "X5") /\ UNCHANGED held
+               ELSE Goto(p, "Done") /\ Unlock(c)
+  /\ Lbl(p, "x_wcs")
+  /\ UNCHANGED <<queue, alive, rwSome, rwReg, nSend, empty, swSome, hvars>>
 
-X5(p) ==
-  /\ pc[p] = "X5" /\ Wake(loc[p].wake) /\ Unlock(p) /\ Goto(p, "Done")
-  /\ UNCHANGED <<queue, recvAlive, rwSome, rwReg, nSenders, empty, swSome, swList, loc, sentCnt, pushed, recvd, gotNone, sendErr>>
+\* dc_x_wake: wake them (the channel mutex is released when drop returns)
+X_wake(p) ==
+  /\ pc[p] = "X5"
+  /\ WakeGoto(p, "Done") /\ wk' = [wk EXCEPT ![p] = {}]
+  /\ Unlock(Ch(p))
+  /\ Lbl(p, "x_wake")
+  /\ UNCHANGED <<queue, alive, rwSome, rwReg, nSend, gvars, hvars>>
 
 AllDone == \A p \in Procs : pc[p] = "Done"
+
+SNext(p) == \/ S_lock(p) \/ S_load(p) \/ S_gate(p) \/ Decr(p) \/ DecrGate(p) \/ S_wake(p) \/ Resume(p)
+            \/ D_nsend(p) \/ D_lock(p) \/ D_wake(p)
+RNext(p) == \/ R_lock(p) \/ R_incr(p) \/ R_gate(p) \/ R_wake(p) \/ Resume(p)
+            \/ X_lock(p) \/ Decr(p) \/ DecrGate(p) \/ X_wcs(p) \/ X_wake(p)
 Next ==
-  \/ \E p \in Senders : S_start(p) \/ S2(p) \/ S4(p) \/ S6(p) \/ S7(p) \/ S8(p) \/ S9(p)
-                        \/ D1(p) \/ D2(p) \/ D3(p) \/ D3b(p) \/ D4(p) \/ D5(p)
-  \/ \E p \in Recvs : R_start(p) \/ R2(p) \/ R4(p) \/ R6(p) \/ X2(p) \/ X3(p) \/ X4(p) \/ X5(p)
+  \/ \E p \in Senders : SNext(p)
+  \/ \E p \in Recvs : RNext(p)
   \/ (AllDone /\ UNCHANGED vars)
+
 Spec == Init /\ [][Next]_vars /\ WF_vars(Next)
 
-\* ---------- properties ----------
-Idle(p) == pc[p] \in {"S_idle", "R_idle", "Done"}
-Quiescent == \A p \in Procs : Idle(p)
-OpenEmpty == { c \in Chans : recvAlive[c] /\ rwSome[c] /\ queue[c] = <<>> }
+(* ------------------------------ properties (C15) ------------------------------ *)
+Quiescent == \A p \in Procs : pc[p] \in {"S0", "R0", "Done", "S_park", "R_park", "S_res", "R_res", "S1", "R1"}
+OpenEmpty == { c \in Chans : alive[c] /\ rwSome[c] /\ queue[c] = <<>> }
+
+TypeOK == /\ empty \in 0..(NCH + 1) /\ \A c \in Chans : nSend[c] \in 0..3
+          /\ swList \subseteq Senders /\ (~swSome => swList = {})
+\* exactly once, in order: what was dequeued, followed by what is queued, is what was pushed
+ExactlyOnceInOrder == \A c \in Chans : alive[c] => recvd[c] \o queue[c] = pushed[c]
+RecvdPrefix == \A c \in Chans : \E k \in 0..Len(pushed[c]) : recvd[c] = SubSeq(pushed[c], 1, k)
+\* per sender handle the values appear in send order, each at most once
+PerSenderOrder == \A c \in Chans : \A i, j \in 1..Len(pushed[c]) :
+                    (i < j /\ pushed[c][i][1] = pushed[c][j][1]) => pushed[c][i][2] < pushed[c][j][2]
+\* end of stream only after every sender handle is gone and every pushed value was dequeued
+EosOk == \A c \in Chans : gotNone[c] => (nSend[c] = 0 /\ recvd[c] = pushed[c])
+\* a send fails only once the receiver is gone
+ErrOk == \A p \in Senders : sendErr[p] => ~alive[Ch(p)]
+\* one-sided gate counter (an under-count could close the gate in front of a starving receiver)
 GateCounter == Quiescent => empty >= Cardinality(OpenEmpty)
+\* diagnostic only: the real code violates the exact form without violating C15 (DESIGN.md §10 item 3)
 GateCounterExact == Quiescent => empty = Cardinality(OpenEmpty)
 GateShape == Quiescent => (swSome <=> (empty = 0))
-ExactlyOnceInOrder == \A c \in Chans : recvAlive[c] => recvd[c] \o queue[c] = pushed[c]
-RecvdPrefix == \A c \in Chans : \E k \in 0..Len(pushed[c]) : recvd[c] = SubSeq(pushed[c], 1, k)
-EosOk == \A c \in Chans : gotNone[c] => (nSenders[c] = 0 /\ recvd[c] = pushed[c])
-ErrOk == \A p \in Senders : sendErr[p] => ~recvAlive[ChanOf(p)]
-NoParkedInWakerlessGate == Quiescent => \A p \in Senders : parked[p] => (swSome /\ p \in swList)
+\* no lost wake-up: a parked process has its waker registered, or in the hands of a process about to wake it
+NoLostWaker ==
+  /\ \A p \in Senders : pc[p] = "S_park" => ((swSome /\ p \in swList) \/ \E q \in Procs : p \in wk[q])
+  /\ \A c \in Chans : pc[Rx(c)] = "R_park" => (rwReg[c] \/ \E q \in Procs : Rx(c) \in wk[q])
+\* a sender stays parked on the gate only while its channel is open and no open channel is empty
+ParkedSenderJustified ==
+  Quiescent => \A p \in Senders : pc[p] = "S_park" => (alive[Ch(p)] /\ OpenEmpty = {})
+\* a receiver stays parked only while its queue is empty and a sender handle is left
+ParkedReceiverJustified ==
+  Quiescent => \A c \in Chans : pc[Rx(c)] = "R_park" => (queue[c] = <<>> /\ rwSome[c])
+
 Termination == <>AllDone
-====
+=============================================================================
